@@ -278,7 +278,7 @@ func freshWithPre(ctx context.Context, pre [][]common.JEvent) (*sql.DB, uint32) 
 		panic(fmt.Sprintf("open: %v", err))
 	}
 	for _, b := range pre {
-		if err := sqlite.VerifInsertEvents(ctx, db, seed, toEvents(b)); err != nil {
+		if err := insertChecked(ctx, db, seed, b); err != nil {
 			// a failure of the implementation is an observation (c14Run records it)
 			db.Close()
 			panic("insertEvents failed on an earlier batch: " + err.Error())
@@ -293,7 +293,7 @@ func c14RunFault(c *c14Case) {
 	db, seed := freshWithPre(ctx, c.Pre)
 	c.Before = answers(ctx, db, seed, c.Qs)
 	fctl.arm(-1)
-	err := sqlite.VerifInsertEvents(ctx, db, seed, toEvents(c.B))
+	err := insertChecked(ctx, db, seed, c.B)
 	c.NCalls = fctl.disarm()
 	if err != nil {
 		c.Panic = "clean insertion failed: " + err.Error()
@@ -301,7 +301,7 @@ func c14RunFault(c *c14Case) {
 		return
 	}
 	c.Clean = answers(ctx, db, seed, c.Qs)
-	if err := sqlite.VerifInsertEvents(ctx, db, seed, toEvents(c.B)); err != nil {
+	if err := insertChecked(ctx, db, seed, c.B); err != nil {
 		c.Panic = "second insertion failed: " + err.Error()
 		db.Close()
 		return
@@ -324,7 +324,7 @@ func c14RunFault(c *c14Case) {
 	for i, k := range ks {
 		db, seed := freshWithPre(ctx, c.Pre)
 		fctl.arm(k)
-		err := sqlite.VerifInsertEvents(ctx, db, seed, toEvents(c.B))
+		err := insertChecked(ctx, db, seed, c.B)
 		fctl.disarm()
 		if err == nil {
 			c.Panic = fmt.Sprintf("fault at call %d was not reported by insertEvents", k)
@@ -335,7 +335,7 @@ func c14RunFault(c *c14Case) {
 		// rolled back keeps the only connection of the pool, and every later statement would wait for ever
 		fctx, fcancel := context.WithTimeout(ctx, c14AfterFaultBound)
 		c.Fault[i] = answers(fctx, db, seed, c.Qs)
-		if err := sqlite.VerifInsertEvents(fctx, db, seed, toEvents(c.B)); err != nil {
+		if err := insertChecked(fctx, db, seed, c.B); err != nil {
 			c.Panic = fmt.Sprintf("retry after fault at call %d failed: %v", k, err)
 			fcancel()
 			go db.Close() // Close waits for the connections in use: not on this goroutine
@@ -425,12 +425,12 @@ func c14RunReopen(c *c14Case) {
 				db.Close()
 				return
 			}
-		} else if err := sqlite.VerifInsertEvents(ctx, db, seed, toEvents(st.B)); err != nil {
+		} else if err := insertChecked(ctx, db, seed, st.B); err != nil {
 			c.Panic = "insertEvents failed: " + err.Error()
 			db.Close()
 			return
 		}
-		if err := sqlite.VerifInsertEvents(ctx, ref, rseed, toEvents(st.B)); err != nil {
+		if err := insertChecked(ctx, ref, rseed, st.B); err != nil {
 			c.Panic = "insertEvents (reference) failed: " + err.Error()
 			db.Close()
 			return
